@@ -228,6 +228,19 @@ impl Prop for C09 {
                         return out;
                     }
                 }
+                // ... and a deletion request reaches an event of a non-replaceable kind only by naming its id
+                if e.kind == 5 {
+                    for j in r_before.difference(&r_after) {
+                        let gone = &w.events[*j];
+                        if World::address_of(gone).is_none() && !e.tags.iter().any(|t| t.len() >= 2 && t[0] == "e" && t[1].eq_ignore_ascii_case(&gone.id)) {
+                            out.fail(
+                                "C09:non-replaceable-displaced-by-deletion-request",
+                                format!("step {stepno}: the deletion request {} (tags {:?}) made {} unretrievable, which has no replaceable address and is not named by id", e.short(), e.tags.iter().take(4).collect::<Vec<_>>(), gone.short()),
+                            );
+                            return out;
+                        }
+                    }
+                }
                 // non-replaceable kinds are never displaced by a (non-deletion) store
                 if e.kind != 5 {
                     for j in r_before.difference(&r_after) {
